@@ -47,7 +47,7 @@ def U(name):
 
 FULL = ["S", "Sv", "Sm", "R", "F", "W", "C", "Cs", "K", "I", "N", "H", "P", "M"]
 REDUCED = ["S", "R", "W", "C", "H", "P"]
-NESTED = ["Hh", "Hf", "Pw", "Pc", "Mw", "N3", "R2", "Nf"]
+NESTED = ["Hh", "Hf", "Pw", "Pc", "Mw", "N3", "R2", "Nf", "Big"]
 CONCURRENT = {"P", "Pw", "Pc", "M", "Mw"}
 
 
